@@ -8,4 +8,4 @@ TRUSTED = simcheck.TRUSTED_SIM
 def run(ctx):
     simcheck.run_sim_property(ctx, [], simmon.mon_c07,
                               "a completed conditional did not release exactly one runnable child / did not cancel its "
-                              "siblings, or resolution at submission left a reachable conditional without exactly one resolved child")
+                              "siblings, or resolution at submission left a reachable conditional without exactly one resolved child", machine=False)
